@@ -26,7 +26,7 @@ MOD = "mc.props.c17"
 NS = 'xmlns="http://www.w3.org/2000/svg" xmlns:xlink="http://www.w3.org/1999/xlink"'
 KINDS = ["U", "GU", "GUU", "CP", "CPU", "LG", "SC", "SF", "S", "SY"]
 SLOT = {"U": "href", "GU": "href", "GUU": "href", "CP": "clip", "CPU": "href", "LG": "href", "SC": "clip", "SF": "fill", "S": None, "SY": None}
-CPU_BUDGET = 4.0
+CPU_BUDGET = 10.0
 
 
 def node_xml(i, kind, target):
